@@ -127,7 +127,7 @@ Definition scalar_pk (s : scalar) (v : sval) : pk :=
   | (Fixed64 | Double), SZ z => PkSlice (PkSeq PkUnit (PkLe 8 (Z.to_N z)))
   | SFixed32, SZ z => PkSlice (PkSeq PkUnit (PkLe 4 (unsigned_of 32 z)))
   | SFixed64, SZ z => PkSlice (PkSeq PkUnit (PkLe 8 (unsigned_of 64 z)))
-  | (Bytes | Bytes16 | Bytes32 | Bytes64 | String_), SB bs => PkSlice (PkSeq PkUnit (PkBytes bs))
+  | (Bytes | Bytes16 | Bytes32 | Bytes64 | String_ | StringPath), SB bs => PkSlice (PkSeq PkUnit (PkBytes bs))
   | _, _ => PkUnit
   end.
 
@@ -449,6 +449,49 @@ with vars_ok (vs : vars) (k : nat) (p : val) : bool :=
       end
   end.
 
+(* every value the Rust types can hold: val_ok without the exclusion of the known class
+   pathbuf-non-utf8 (sval_native instead of sval_ok); the two differ at StringPath fields only *)
+Fixpoint val_native (m : msg) (v : val) : bool :=
+  match m with
+  | MStruct fs => match v with VL vs => flds_native fs vs | _ => false end
+  | MEnum vs => match v with VV k p => vars_native vs k p | _ => false end
+  | MResult t e =>
+      match v with VV O x => val_native t x | VV (S O) x => val_native e x | _ => false end
+  end
+with flds_native (fs : flds) (vs : list val) : bool :=
+  match fs, vs with
+  | FNil, [] => true
+  | FCons _ c t rest, v :: vs' =>
+      let one := fun x : val =>
+        match t with
+        | TSc s => is_sval x && sval_native s (to_sval x)
+        | TMsg m => val_native m x
+        end in
+      (match c, v with
+       | CPlain, x => one x
+       | COpt, VL [] => true
+       | COpt, VL [x] => one x
+       | CRep, VL xs => forallb one xs
+       | _, _ => false
+       end) && flds_native rest vs'
+  | _, _ => false
+  end
+with vars_native (vs : vars) (k : nat) (p : val) : bool :=
+  match vs with
+  | VNil => false
+  | VUnit _ rest => match k with O => match p with VL [] => true | _ => false end | S k' => vars_native rest k' p end
+  | VOne _ t rest =>
+      match k with
+      | O => match t with TSc s => is_sval p && sval_native s (to_sval p) | TMsg m => val_native m p end
+      | S k' => vars_native rest k' p
+      end
+  | VNamed _ fs rest =>
+      match k with
+      | O => match p with VL ps => flds_native fs ps | _ => false end
+      | S k' => vars_native rest k' p
+      end
+  end.
+
 (* -------------------------------------------------------------------- the cases of the harness *)
 Inductive op : Type :=
 | OEnc (m : msg) (v : val)        (* stack_pack(&v).to_vec(), pack_sz(), unpack of the packed bytes *)
@@ -478,7 +521,7 @@ Definition wt_of_bits (b : N) : wiretype :=
 Definition run_op (o : op) : out :=
   match o with
   | OEnc m v =>
-      if val_ok m v then
+      if val_native m v then
         let r := msg_to_vec m v in
         RBytes r (msg_pack_sz m v)
                (match r with Ok bs => Some (msg_unpack m bs) | _ => None end)
@@ -492,7 +535,7 @@ Definition run_op (o : op) : out :=
   | OZigzag z => RInt (Z.of_N (zigzag z))
   | OUnzigzag x => RInt (unzigzag x)
   | OScEnc s v =>
-      if sval_ok s v then
+      if sval_native s v then
         let r := to_vec (scalar_pk s v) in
         RBytes r (pk_sz (scalar_pk s v))
                (match r with Ok bs => Some (scalar_unpack_val s bs) | _ => None end)
